@@ -201,10 +201,11 @@ class Shadow:
                         J['state'] = 'Ready'
 
     # -- instances ----------------------------------------------------------------------------------
-    def new_instance(self, pool: bool, activate=True):
+    def new_instance(self, pool: bool, activate=True, cores: Optional[int] = None):
         n = self.next_inst
         self.next_inst += 1
-        cores = self.rng.choice([4000, 8000, 16000]) if pool else self.rng.choice([1000, 2000])
+        if cores is None:
+            cores = self.rng.choice([4000, 8000, 16000]) if pool else self.rng.choice([1000, 2000])
         self.instances[n] = {'pool': pool, 'state': 'pending', 'cores': cores}
         self.emit(f'newInstance {n} {cores} {1 if pool else 0}', 'newInstance')
         if activate:
@@ -804,8 +805,14 @@ def submission(rng: random.Random, flavour: str = 'c39') -> Dict[str, Any]:
     s = Shadow(rng)
     s.deep_groups = 0.0          # a well-behaved client: every request of the submission is accepted
     b = s.create_batch(user=1)
-    for _ in range(rng.choice([1, 2])):
-        s.new_instance(True)
+    exact_fit = None
+    if flavour in ('c39', 'c10') and rng.random() < 0.35:
+        # whole-worker jobs: the only pool instance has exactly the cores one of the jobs asks for
+        exact_fit = rng.choice([1000, 2000])
+        s.new_instance(True, cores=exact_fit)
+    else:
+        for _ in range(rng.choice([1, 2])):
+            s.new_instance(True)
     if flavour == 'c41':
         # a multi-request batch whose first update is inserted but NEVER committed, next to a committed batch of the same user; both get
         # cancelled and the canceller's loops run
@@ -861,6 +868,9 @@ def submission(rng: random.Random, flavour: str = 'c39') -> Dict[str, Any]:
                     if (f[1] or f[2]) and rng.random() < 0.45:
                         f[5] = '1'                                   # ... and many children are always_run
                         s.jobs[(b, jid)]['ar'] = 1
+                if exact_fit and f[7] == '0':
+                    # every pool job fits the only worker; the first (and some more) take it entirely
+                    f[6] = str(exact_fit) if int(f[0]) == 1 or rng.random() < 0.3 else str(rng.choice([c for c in (250, 500, 1000, 2000) if c <= exact_fit]))
                 s.jobs[(b, jid)]['ic'] = int(f[7])
                 np_.append(';'.join(f))
             fixed.append(np_)
@@ -938,4 +948,86 @@ def submission(rng: random.Random, flavour: str = 'c39') -> Dict[str, Any]:
             if g != 0 and rng.random() < 0.5:
                 script.append('S')
                 script.append(f'C{b} {rng.choice([a for a in s.ancestors(b, g) if a != g] or [0])}')
+    if flavour == 'c10':
+        # the driver's database calls commit ambiguously now and then (deactivate / activate / schedule_job / worker reports)
+        script = [a + '~' if a[0] in 'FSJWPQ' and rng.random() < 0.3 else a for a in script]
     return {'ops': s.ops, 'kind': 'actors', 'actors': script, 'aseed': rng.randint(0, 10 ** 6)}
+
+
+def commit_while_parent_busy(rng: random.Random) -> Dict[str, Any]:
+    """C08 / C05: an update >= 2 is committed while a parent of one of its jobs, in an earlier committed update, is in every possible
+    unfinished state — Ready, Creating (job-private, on a pending instance), Running — or already terminal; then everything runs to
+    the end so that "can the committed batch finish" is observable"""
+    s = Shadow(rng)
+    s.deep_groups = 0.0
+    b = s.create_batch(user=1)
+    pool = s.new_instance(True)
+    n1 = rng.randint(1, 3)
+    u1 = s.open_update(b, n1, 0)
+    kinds = [rng.choice(['jp', 'jp', 'pool']) for _ in range(n1)]
+    s.emit(f'insertJobs {b} {u1["id"]} 1 ' + ' '.join(
+        f'{k};;;0;0;0;{1000 if kinds[k - 1] == "jp" else rng.choice([250, 1000])};{2 if kinds[k - 1] == "jp" else 0}' for k in range(1, n1 + 1)),
+        'insertJobs')
+    s.emit(f'commit {b} {u1["id"]}', 'commit')
+    n2 = rng.randint(1, 2)
+    u2 = s.open_update(b, n2, 0)
+    specs = []
+    for k in range(1, n2 + 1):
+        pars = sorted(rng.sample(range(1, n1 + 1), rng.randint(1, n1)))
+        specs.append(f'{k};{",".join(map(str, pars))};;0;0;{rng.choice([0, 0, 1])};250;0')
+    s.emit(f'insertJobs {b} {u2["id"]} 1 ' + ' '.join(specs), 'insertJobs')
+    # bring the parents into assorted states
+    att = 11
+    placed = {}
+    for j in range(1, n1 + 1):
+        st = rng.choice(['Ready', 'Creating', 'Creating', 'Running', 'done'])
+        ts = s.tick()
+        if kinds[j - 1] == 'jp':
+            if st == 'Ready':
+                continue
+            inst = s.new_instance(False, activate=False, cores=1000)
+            s.emit(f'creating {b} {j} {att} {inst} {ts} {s.date}', 'creating')
+            placed[j] = (att, inst, 'Creating')
+            if st in ('Running', 'done'):
+                s.emit(f'activate {inst}', 'activate')
+                s.emit(f'schedule {b} {j} {att} {inst}', 'schedule')
+                placed[j] = (att, inst, 'Running')
+        else:
+            if st in ('Ready', 'Creating'):
+                continue
+            s.emit(f'schedule {b} {j} {att} {pool}', 'schedule')
+            placed[j] = (att, pool, 'Running')
+        if st == 'done':
+            s.emit(f'complete {b} {j} {att} {placed[j][1]} {rng.choice(["Success", "Success", "Failed"])} {ts} {s.tick()} completed {s.date}', 'complete')
+            placed[j] = (att, placed[j][1], 'done')
+        att += 1
+    s.emit(f'commit {b} {u2["id"]}', 'commit:while-parents-busy')
+    # everything finishes
+    for j in range(1, n1 + 1):
+        a, inst, st = placed.get(j, (None, None, 'Ready'))
+        if st == 'done':
+            continue
+        if st == 'Ready':
+            if kinds[j - 1] == 'jp':
+                inst = s.new_instance(False, activate=False, cores=1000)
+                a = att
+                att += 1
+                s.emit(f'creating {b} {j} {a} {inst} {s.tick()} {s.date}', 'creating')
+                st = 'Creating'
+            else:
+                a, inst = att, pool
+                att += 1
+                s.emit(f'schedule {b} {j} {a} {inst}', 'schedule')
+                st = 'Running'
+        if st == 'Creating':
+            s.emit(f'activate {inst}', 'activate')
+            s.emit(f'schedule {b} {j} {a} {inst}', 'schedule')
+        t0 = s.tick()
+        s.emit(f'complete {b} {j} {a} {inst} Success {t0} {s.tick()} completed {s.date}', 'complete')
+    for k in range(1, n2 + 1):
+        j = n1 + k
+        s.emit(f'schedule {b} {j} {att} {pool}', 'schedule')
+        t0 = s.tick()
+        s.emit(f'complete {b} {j} {att} {pool} Success {t0} {s.tick()} completed {s.date}', 'complete')
+        att += 1
+    return {'ops': s.ops, 'kind': 'history', 'shape': 'commit-while-parent-busy'}
